@@ -267,7 +267,7 @@ TInsCol(e) ==
 TRem(r) ==
     /\ cur = <<>> /\ pend = ""
     /\ r \in tree
-    /\ Cardinality(tree) >= MinRem
+    /\ Cardinality(tree) >= MinRem \/ ~\E e \in ProperRce : Completable(<<e>>)      \* (or nothing fits any more)
     /\ tree' = tree \ {r} /\ cur' = cur /\ pend' = "sweep"
     /\ act' = [op |-> "tree", kind |-> "rem", r |-> r]
 TSweep ==
